@@ -26,6 +26,7 @@ CLASS = [
     ("inject/inject.go", 120, 139, EQ, "an empty non-nil argument slice instead of nil for a function without parameters"),
     ("inject/inject.go", 214, 216, EQ, "Implements = AssignableTo for an interface type; which implementor of several is taken is Go's map order anyway"),
     ("internal/route/definition.go", 70, 100, EQ, "the `???` branches are unreachable for parsed routes"),
+    ("internal/route/leaf.go", 118, 118, GAP, "which parameters of a list are binds only matters for a match-all list whose option is spelled as an expression (`capture: /2/`), never generated before"),
     ("internal/route/leaf.go", 96, 133, EQ, "URLPath: the optional segment is the last one; unreachable `???`; conditions that differ only on lists the registration rejects; a capacity"),
     ("internal/route/leaf.go", 169, 174, EQ, "Static() answering false more often: C10 proves the shortcut unobservable, a shortcut never taken is no change"),
     ("internal/route/leaf.go", 190, 190, EQ, "a regex leaf has at least one bind, a failed FindStringSubmatch returns nil"),
@@ -47,6 +48,7 @@ CLASS = [
     ("router.go", 223, 223, EQ, "no entry in the shortcut table: C10 proves it unobservable"),
     ("router.go", 389, 389, EQ, "capacity of a map"),
     ("router.go", 397, 397, GAP, "a bind named `withOptional` was never generated"),
+    ("router.go", 484, 484, EQ, "without the explicit panic the nil *Route is dereferenced: a panic either way"),
     ("router.go", 483, 486, GAP, "ComboRoute.Name was never called"),
 ]
 
